@@ -184,7 +184,7 @@ class C11(Prop):
 
     def cfg_oracle(self, line):
         """configuration histories: after every call the reported state is the last acknowledged one; a write returns
-        within two ACK timeouts; a fully acknowledged write makes device = requested = reported"""
+        within the bound derived from the source's time-outs; a fully acknowledged write makes device = requested = reported"""
         flags, en, div, ops = ll.parse_cfg_line(line)
         if not flags & 2:
             return None
@@ -208,8 +208,9 @@ class C11(Prop):
             is_write = op.startswith("W:")
             if is_write and n > 0:
                 _, od, oe = op.split(":")
-                if int(f["t"]) > 21:
-                    return {"key": "unbounded-wait", "what": "write took longer than two ACK timeouts", "expected": "<= 2.1 s", "observed": f["t"],
+                if int(f["t"]) > 10 * ll.call_bound():
+                    return {"key": "unbounded-wait", "what": f"write waited {int(f['t']) / 10} s for the device",
+                            "expected": f"<= {ll.call_bound():.0f} s (10 x the largest time-out the source uses, at least 10 s)", "observed": f["t"],
                             "history": ops}
                 if div_sup and od == "a":
                     ack_div = ll.ints(req_div)
@@ -308,6 +309,7 @@ def life_oracle(p, burst=None):
     streaming = False          # the high-level handler's own idea (a second stream_start does nothing)
     req_en = req_div = ack_en = ack_div = None
     prev = None
+    bound = ll.call_bound()        # "within a bounded time": the bound follows the source's own time-outs
     for i, r in enumerate(rich):
         call = r["call"]
         wn = call.endswith("!")
@@ -315,9 +317,9 @@ def life_oracle(p, burst=None):
         st, dv, en = r["ans"] or ("a", "a", "a")
         hist = [x["call"] + ("~" + ",".join(x["ans"]) if x["ans"] else "") for x in rich[:i + 1]]
         wait = r["dt"] - r["join"]
-        if wait > 4.7 or r["join"] > 2.1:
+        if r["dt"] > bound:
             return {"key": "unbounded-wait", "what": f"call {call} waited {wait:.2f} s for the device and {r['join']:.2f} s for its threads",
-                    "expected": "<= 3 ACK timeouts + 2 drains; <= 1 s per joined thread", "observed": f"{r['dt']:.2f}", "history": hist}
+                    "expected": f"<= {bound:.0f} s (10 x the largest time-out the source uses, at least 10 s)", "observed": f"{r['dt']:.2f}", "history": hist}
         if r["res"] not in ("ok",) and not r["res"].startswith("ack:"):
             return final           # a raising call (out-of-range id, call on a disconnected handler): outside this oracle
         if c == "C":
@@ -337,8 +339,6 @@ def life_oracle(p, burst=None):
             if not (r["res"].startswith(want) if want.endswith(":") else r["res"] == want):
                 return {"key": "ack-state", "what": f"{'stream_start' if c == 'S' else 'stream_stop'}() answered with '{st}' returned {r['res']}",
                         "expected": want + ("<code>" if want.endswith(":") else ""), "observed": r["res"], "history": hist}
-            if wait > 1.0 + 1e-6:
-                return {"key": "unbounded-wait", "what": f"{call} took {wait:.2f} s", "expected": "<= 1 s", "observed": wait, "history": hist}
             if st in ("a", "x") and r["dev_started"] != (c == "S"):
                 return {"key": "ack-state", "what": "an applied start/stop request did not reach the device", "expected": c == "S",
                         "observed": r["dev_started"], "history": hist}
